@@ -338,3 +338,9 @@ def run(ctx):
     round5.share(ctx, "R9.6", "C10", lambda i_: (i_["rule"] == "R10.3") or
                  (i_["rule"] in ("R10.1", "R10.2") and "move_thread_to_final" in i_["inst"]), "write-fault:",
                  "a stream marked finished lacks bytes that were flushed", 6)
+    ctx.rule("R9.7", "a stream cut short is not emulated as complete: at the end of the trace every thread must be dead "
+             "(C04 R4.4's evaluation of model_ovni_finish on all state combinations), so a stream truncated while its "
+             "thread is paused or running is rejected")
+    from rules import round6
+    round6.share(ctx, "R9.7", "C04", lambda i_: i_["rule"] == "R4.4" and i_["inst"].startswith("model_ovni_finish:"), "all-dead:",
+                 "a truncated stream whose thread is not dead is accepted", 10)
